@@ -40,11 +40,25 @@ BOUNDS = {
 }
 
 
+def crate_dir():
+    """the replay crate to build: /verif/replay for /repo; for a scratch tree (VERIF_REPO) a copy under VERIF_SCRATCH with the path dependency rewritten"""
+    repo = gen.REPO
+    if repo == '/repo' or not os.environ.get('VERIF_SCRATCH'):
+        return REPLAY
+    import shutil
+    d = os.path.join(os.environ['VERIF_SCRATCH'], 'replay')
+    if not os.path.exists(d):
+        shutil.copytree(REPLAY, d, ignore=shutil.ignore_patterns('target'))
+        t = open(os.path.join(d, 'Cargo.toml')).read().replace('path = "/repo"', 'path = "%s"' % repo)
+        open(os.path.join(d, 'Cargo.toml'), 'w').write(t)
+    return d
+
+
 def build():
     env = dict(os.environ)
     env['CARGO_NET_OFFLINE'] = 'true'
     t0 = time.time()
-    p = subprocess.run(['cargo', 'build', '--offline', '--release', '--bin', 'oracle'], cwd=REPLAY, env=env, stdout=subprocess.PIPE, stderr=subprocess.STDOUT, timeout=1200)
+    p = subprocess.run(['cargo', 'build', '--offline', '--release', '--bin', 'oracle'], cwd=crate_dir(), env=env, stdout=subprocess.PIPE, stderr=subprocess.STDOUT, timeout=1200)
     return p.returncode == 0, p.stdout.decode('utf-8', 'replace')[-3000:], time.time() - t0
 
 
@@ -55,7 +69,7 @@ def run(names, deep=False, timeout=600):
         return False, [{'check': n, 'status': 'ERROR', 'detail': 'replay crate does not build against the current /repo: ' + log[-600:]} for n in names]
     out = []
     for n in names:
-        cmd = [os.path.join(REPLAY, 'target', 'release', 'oracle')] + (['--deep'] if deep else []) + [n]
+        cmd = [os.path.join(crate_dir(), 'target', 'release', 'oracle')] + (['--deep'] if deep else []) + [n]
         try:
             p = subprocess.run(cmd, stdout=subprocess.PIPE, stderr=subprocess.DEVNULL, timeout=timeout)
             lines = [l for l in p.stdout.decode('utf-8', 'replace').split('\n') if l.startswith(('PASS', 'FAIL'))]
